@@ -141,6 +141,11 @@ func findClosest(query fastaio.EncodedFastaRecord, measure string, cIn chan fast
 			distance = tn93Distance(query, target)
 		}
 
+		// an undefined distance (no jointly resolved site) ranks after every defined one
+		if math.IsNaN(distance) {
+			distance = math.Inf(1)
+		}
+
 		if first {
 			snps = make([]string, 0)
 			for i, tNuc := range target.Seq {
